@@ -169,3 +169,29 @@ def rk4(n, X0, t, accel=None, orientation="QSW", steps=4000):
         k4 = f(X + h * k3)
         X = X + h / 6 * (k1 + 2 * k2 + 2 * k3 + k4)
     return X
+
+
+def superpose(n, X0, events, t, orientation="QSW"):
+    """State at t when maneuvers may overlap (an impulse during a thrust arc, two arcs at once).
+
+    The system is linear, so the response is the free motion of X0 plus, independently for every
+    maneuver that has started by t, the free motion of what that maneuver injected:
+        impulse at tm <= t:   Phi(t - tm) [0; dv]
+        arc [t0, t1), t0 <= t: Phi(t - te) Gamma(te - t0) a   with te = min(t, t1).
+    Returns (state as float64, scale) like `piecewise`.
+    """
+    X = advance(n, X0, t, None, orientation)
+    scale = _scale(n, X0, None)
+    for ev in events:
+        if ev["kind"] == "imp":
+            if t >= ev["t"]:
+                kick = np.concatenate([np.zeros(3), np.asarray(ev["dv"], float)])
+                X = X + advance(n, kick, t - ev["t"], None, orientation)
+                scale += _scale(n, kick, None)
+        elif t >= ev["t0"]:
+            te = min(t, ev["t1"])
+            forced = advance(n, np.zeros(6), te - ev["t0"], ev["accel"], orientation)
+            scale += _scale(n, np.asarray(forced, float), ev["accel"])
+            X = X + advance(n, forced, t - te, None, orientation)
+    scale = max(scale, _scale(n, np.asarray(X, float), None))
+    return np.asarray(X, float), scale
